@@ -130,7 +130,8 @@ JudgeBackward(e) ==
   ELSE IF e.panic THEN Bad(IF e.budget_left < 0 THEN "eval-budget-exhausted" ELSE "backward-panic") ELSE
   LET h == e.args[1]
       root == S.hd[h].n
-      seedOpt == IF Has(e, "seed") THEN Some(TIn(e.seed)) ELSE None
+      seedOpt == IF Has(e, "seedh") THEN Some(HandleT(S, e.seedh))       \* a clone of a live array is the seed
+                 ELSE IF Has(e, "seed") THEN Some(TIn(e.seed)) ELSE None
       adj == RefAdj(S, root, SeedOf(S, h, seedOpt))
       plus(n) == Accumulate(S.grad[n], adj[n])
       \* adopt the observed alternative for may-store nodes
@@ -287,7 +288,12 @@ Judge(e) ==
      IF e.some # IsSome(S.grad[n]) THEN Bad("grad-presence")
      ELSE IF ~e.some THEN J("", S, dig)
      ELSE NewValue(e, FetchGrad(S, e.args[1], e.res, e.i), S.grad[n].x, <<>>)
-  ELSE IF e.op = "clear" THEN J("", ClearGrad(S, e.args[1]), dig)
+  ELSE IF e.op = "clear" THEN
+     LET g == S.grad[S.hd[e.args[1]].n] IN
+     \* replace_gradient() hands out exactly what the slot held
+     IF Has(e, "taken") /\ Has(e.taken, "none") /\ IsSome(g) THEN Bad("replace-gradient-result")
+     ELSE IF Has(e, "taken") /\ ~Has(e.taken, "none") /\ (g.none \/ e.taken.d # g.x.d \/ ~TMatch(e.taken, g.x)) THEN Bad("replace-gradient-result")
+     ELSE J("", ClearGrad(S, e.args[1]), dig)
   ELSE IF e.op = "setgrad" THEN J("", SetGrad(S, e.args[1], TIn(e.g)), dig)
   ELSE IF e.op = "into_vec" THEN
      IF MustOwn(S, e.args[1]) /\ e.panic THEN Bad("into_vec-should-succeed")
